@@ -193,6 +193,8 @@ void EGLPNUM_TYPENAME_ILLerror_memory_free (
 		while (ths != NULL)
 		{
 			nxt = ths->next;
+			/* the description and the copy of the line belong to the node */
+			EGLPNUM_TYPENAME_ILLformat_error_delete (ths);
 			ILL_IFFREE(ths);
 			ths = nxt;
 		}
